@@ -2,6 +2,7 @@ import CobyqaVerif.Model.Filter
 import CobyqaVerif.Model.SpecC03
 import CobyqaVerif.Model.Run
 import CobyqaVerif.Model.Settings
+import CobyqaVerif.Model.Radius
 import CobyqaVerif.Gen.Settings
 /-!
 Line-protocol driver: `lake env lean --run Driver.lean < requests > answers`.
@@ -227,11 +228,69 @@ def doMinPts (toks : List String) : String :=
   | _ => "bad-op"
 end settings
 
+/-! ## radius / resolution / centre (C18) -/
+section radius
+open Cobyqa
+
+/-- `radius drf irf irt drt dresf lrt mrt low high rhoend radius0 res0 | op ; op ; ...` with ops
+`set r`, `upd snorm ratio`, `short`, `enh`; answer: `radius,res` bits after every op -/
+def doRadius (hdr : List Nat) (body : String) : String :=
+  match hdr with
+  | [drf, irf, irt, drt, dresf, lrt, mrt, low, high, rhoend, r0, s0] =>
+    let C : RConsts Float := ⟨fl drf, fl irf, fl irt, fl drt, fl dresf, fl lrt, fl mrt, fl low, fl high⟩
+    let ops := (body.splitOn ";").map fun o => (o.splitOn " ").filter (· ≠ "")
+    let step := fun (acc : Option (RR Float) × List String) (o : List String) =>
+      match acc.1 with
+      | none => acc
+      | some st =>
+        let nxt : Option (RR Float) :=
+          match o with
+          | ["set", r] => r.toNat?.map fun r => setRadius C st (fl r)
+          | ["upd", sn, ra] => do some (updateRadius C st (fl (← sn.toNat?)) (fl (← ra.toNat?)))
+          | ["short"] => some (shortStep C st)
+          | ["enh"] => some (enhanceResolution Float.sqrt C (fl rhoend) st)
+          | _ => none
+        match nxt with
+        | some st' => (some st', acc.2 ++ [s!"{bits st'.radius},{bits st'.res}"])
+        | none => (none, acc.2)
+    match ops.foldl step (some ⟨fl r0, fl s0⟩, []) with
+    | (some _, out) => " ".intercalate out
+    | (none, _) => "bad-op"
+  | _ => "bad-op"
+
+/-- `scan tol b0 m0 r0 | m r m r ...` : `set_best_index`; answer `best tolSwitches` -/
+def doScan (hdr vals : List Nat) : String :=
+  match hdr with
+  | [tol, b0, m0, r0] =>
+    let rec pairs : List Nat → Option (List (Float × Float))
+      | [] => some []
+      | [_] => none
+      | a :: b :: t => (pairs t).map ((fl a, fl b) :: ·)
+    match pairs vals with
+    | some pts => let S := setBestIndex (fl tol) b0 pts (fl m0) (fl r0); s!"{S.best} {S.tolSwitches}"
+    | none => "bad-op"
+  | _ => "bad-op"
+
+/-- `remove best | w s w s ...` : `get_index_to_remove(x_new)`; answer the index -/
+def doRemove (hdr vals : List Nat) : String :=
+  match hdr with
+  | [best] =>
+    let rec pairs : List Nat → Option (List (Float × Float))
+      | [] => some []
+      | [_] => none
+      | a :: b :: t => (pairs t).map ((fl a, fl b) :: ·)
+    match pairs vals with
+    | some ps => toString (indexToRemove (ps.map (·.1)) (ps.map (·.2)) best (-1.0))
+    | none => "bad-op"
+  | _ => "bad-op"
+end radius
+
 def handle (line : String) : String :=
   match line.splitOn "|" with
   | [h, v] =>
     match (h.splitOn " ").filter (· ≠ "") with
     | "run" :: args => doRun args v
+    | "radius" :: args => (match args.mapM String.toNat? with | some h => doRadius h v | none => "bad-op")
     | "opts" :: args => doOpts args
     | "consts" :: args => doConsts args
     | "minpts" :: args => doMinPts args
@@ -241,6 +300,8 @@ def handle (line : String) : String :=
         match cmd with
         | "filter" => doFilter hdr vals
         | "spec03" => doSpec03 hdr vals
+        | "scan" => doScan hdr vals
+        | "remove" => doRemove hdr vals
         | _ => "bad-op"
       | _, _ => "bad-op"
     | [] => "bad-op"
